@@ -1,3 +1,4 @@
+import AdeuModel.Lemmas.ComGrow
 import AdeuModel.Model.History
 import AdeuModel.Lemmas.Engine
 import AdeuModel.Lemmas.Review
@@ -87,5 +88,18 @@ theorem C07_reached_length (d : Document) (steps : List Step) :
   induction steps generalizing d with
   | nil => exact ⟨rfl, rfl⟩
   | cons st rest ih => exact ⟨by simp [reached, (ih _).1], rfl⟩
+
+/-- Over any history - edit rounds, review rounds with replies, accept-all, a save and reload between rounds - every
+entry of the comments part at the end is an entry of the original document or was written in one of the rounds, under
+that round's author. -/
+theorem C07_comments_over_history (steps : List Step) (d : Document) :
+    ∀ c ∈ (runHistory d steps).1.comments, c ∈ d.comments ∨ ∃ a ∈ sessionAuthors steps, c.author = some a :=
+  comments_over_history steps d
+
+/-- ... and the comment ids stay pairwise distinct through the whole history (every round reloads the document and
+restarts its counter above the ids it finds). -/
+theorem C07_comment_ids_unique_over_history (steps : List Step) (d : Document)
+    (h : (d.comments.map (·.id)).Nodup) : ((runHistory d steps).1.comments.map (·.id)).Nodup :=
+  comment_ids_unique_over_history steps d h
 
 end Adeu.Props.C07
